@@ -266,6 +266,8 @@ CancelOnStop == stopping ~> (\A q \in qs : q.ph = "fly" => q.cx)
 ClosestOK == /\ Cardinality(closest) <= cfg.k
              /\ closest \subseteq eligible
              /\ \A r \in eligible \ closest : \A m \in closest : ~(Dist(r.id) < Dist(m.id))
+             \* "the K closest nodes that answered": nobody who answered is left out while there is room
+             /\ Cardinality(closest) < cfg.k => eligible \subseteq closest
 
 \* C03: judged at the instant the loop decides, under the lock, to offer "stalled" and before any
 \* later broadcast (the linearization point of the report)
